@@ -151,6 +151,11 @@ def spellings_ufunc(task):
             sp["mg_abs"] = lambda ops, ex: mg.abs(*ops, **kw, **ex)
             if "out" in task:
                 sp["mg_out_tuple"] = lambda ops, ex: mgf(*ops, **kw, **{k: ((v,) if k == "out" else v) for k, v in ex.items()})
+        if "where" in task and "out" in task:
+            # the mask handed over as a (constant, boolean) tensor / as a nested list: the same call
+            sp["mg_where_tensor"] = lambda ops, ex: mgf(*ops, **kw, **{k: (mg.tensor(v) if k == "where" else v) for k, v in ex.items()})
+            sp["np_where_tensor"] = lambda ops, ex: npf(*ops, **kw, **{k: (mg.tensor(v) if k == "where" else v) for k, v in ex.items()})
+            sp["mg_where_list"] = lambda ops, ex: mgf(*ops, **kw, **{k: (v.tolist() if k == "where" else v) for k, v in ex.items()})
         plain = not kw and not any(k in task for k in ("out", "where", "dtype"))
         if plain and n == 2 and fn in BINOPS:
             sp["operator"] = lambda ops, ex: BINOPS[fn](*ops)
@@ -208,6 +213,10 @@ def spellings_func(task):
     if style == "first":        # f(t, *args, **kw)
         sp["mg"] = lambda ops, ex: mgf(*ops, *args, **kw)
         sp["np"] = lambda ops, ex: npf(*ops, *args, **kw)
+        if fn == "transpose" and len(args) == 1 and not kw:
+            # numpy.transpose names its second parameter
+            sp["np_axes_kw"] = lambda ops, ex: npf(ops[0], axes=args[0])
+            sp["mg_axes_kw"] = lambda ops, ex: mgf(ops[0], axes=args[0])
         meth = task.get("method", mgname)
         if meth and hasattr(mg.Tensor, meth) and n == 1:
             sp["method"] = lambda ops, ex: getattr(ops[0], meth)(*args, **kw)
